@@ -130,13 +130,9 @@ Section Model.
   Definition nego (p : params) : option (N * N) :=
     match p_ccid p, p_scid p with Some c, Some s => Some (c, s) | _, _ => None end.
 
-  (* ShouldWrapConnectionID: records are sent as tls12_cid once the peer's (non-empty) connection id
-     is committed - also the unprotected alerts of a handshake that fails afterwards.  The receiver
-     rejects an epoch-0 tls12_cid record ("invalid content type"), answers with decode_error(50) and,
-     like every sender of a fatal alert, drops its session. *)
-  Definition wraps_to (peer_cid : option N) : bool :=
-    match peer_cid with Some c => negb (c =? 0) | None => false end.
-
+  (* conn.go notify: an alert sent before establishment is a plain, unprotected alert record also when
+     connection ids are already committed (only protected records carry a connection id), so it
+     reaches the peer. *)
   Definition c_side (p : params) (ms : secret) (kb : K) (sid : bid) : side :=
     mkSide Established ms (Some kb) sid (option_map fst (nego p)) (option_map snd (nego p)).
   Definition s_side (p : params) (ms : secret) (kb : K) (sid : bid) : side :=
@@ -188,11 +184,7 @@ Section Model.
     | FAlpn => R (idle (RecvAlert 120) off) (idle (SentAlert 120) 0) [] []
     | FEms => R (idle (SentAlert 71) off) (idle (RecvAlert 71) nsid)
                 (if negb (off =? 0) then [MDel (p_ckey p)] else []) []
-    | FCVerify =>
-        if wraps_to (option_map snd (nego p))
-        then R (idle (SentAlert 42) csid) (idle (SentAlert 50) nsid) (wrongdel ++ cdel)
-               (if negb (nsid =? 0) then [MDel nsid] else [])
-        else R (idle (SentAlert 42) csid) (idle (RecvAlert 42) nsid) (wrongdel ++ cdel) []
+    | FCVerify => R (idle (SentAlert 42) csid) (idle (RecvAlert 42) nsid) (wrongdel ++ cdel) []
     | f =>
         if negb (p_arr_c p) then R (idle Stalled csid) (idle Stalled nsid) wrongdel [] else
         (* flight4Parse: ClientKeyExchange -> master secret -> SetSession; then the client's Finished record *)
@@ -201,11 +193,8 @@ Section Model.
         match (if negb (V_eqb (VD true (p_mss p) tr) (VD true (p_msc p) tr)) then Some 40
                else match f with FSVerify => Some 42 | _ => None end) with
         | Some d =>
-            if wraps_to (option_map fst (nego p))
-            then R (idle (SentAlert 50) csid) (idle (SentAlert d) ssid) (wrongdel ++ cdel)
-                   (srv_set ++ if negb (ssid =? 0) then [MDel ssid] else [])
-            else R (idle (RecvAlert d) csid) (idle (SentAlert d) ssid) wrongdel
-                   (srv_set ++ if negb (ssid =? 0) then [MDel ssid] else [])
+            R (idle (RecvAlert d) csid) (idle (SentAlert d) ssid) wrongdel
+              (srv_set ++ if negb (ssid =? 0) then [MDel ssid] else [])
         | None =>
             let S := s_side p (p_mss p) ks ssid in
             if negb (p_arr_s p) then R (idle Stalled csid) S wrongdel srv_set else
